@@ -30,7 +30,7 @@ Cells == {"parser", "cookies", "path", "msgs", "strip", "luastk", "lglobal", "ll
 \* page kinds (the harness has one concrete page per kind)
 Kinds == {"unclosedMarkup", "unclosedTable", "preTag", "manyCalls", "templateLoop", "sectionError", "templateNowiki",
           "luaGlobal", "luaString", "luaStringMeta", "luaRequired", "luaRetained", "luaLoadData", "luaLoadJson",
-          "luaStripMarker", "luaError", "luaTimeout", "parseExpandAll", "otherContextWithExtTags", "extTagPage"}
+          "luaStripMarker", "luaError", "luaTimeout", "parseExpandAll", "otherContextWithExtTags", "otherContextRedefiningTag", "extTagPage"}
 
 IsLua(k) == k \in {"luaGlobal", "luaString", "luaStringMeta", "luaRequired", "luaRetained", "luaLoadData", "luaLoadJson",
                    "luaStripMarker", "luaError", "luaTimeout"}
@@ -52,7 +52,8 @@ Reads(k) ==
     [] k \in {"luaLoadData", "luaLoadJson"} -> {"cookies", "path", "msgs", "luastk", "ldata", "memo"}
     [] k = "luaStripMarker" -> {"cookies", "path", "msgs", "luastk", "strip"}
     [] k \in {"luaError", "luaTimeout"} -> {"cookies", "path", "msgs", "luastk"}
-    [] k = "otherContextWithExtTags" -> {}
+    \* otherContextRedefiningTag: another context whose extension tags give a built-in tag name other data
+    [] k \in {"otherContextWithExtTags", "otherContextRedefiningTag"} -> {}
 
 \* cells a page of this kind leaves changed when it returns (after the code's own clean-up)
 Writes(k) ==
@@ -66,7 +67,7 @@ Writes(k) ==
           [] k = "luaRetained" -> {"lretain"}
           [] k \in {"luaLoadData", "luaLoadJson"} -> {"ldata"}
           [] k = "luaStripMarker" -> {"strip"}
-          [] k = "otherContextWithExtTags" -> IF "ExtensionTagsShared" \in Dev THEN {"tags"} ELSE {}
+          [] k \in {"otherContextWithExtTags", "otherContextRedefiningTag"} -> IF "ExtensionTagsShared" \in Dev THEN {"tags"} ELSE {}
           [] OTHER -> {})
 
 \* cells the processing of a page resets before they are read: start_page, then the
